@@ -78,6 +78,13 @@ func init() {
 			return err == nil, fmt.Sprint(err)
 		})
 	}
+	probes["O86"] = func() (bool, string) {
+		return guard(func() (bool, string) {
+			to := struct{ I interface{} }{I: rejecting{}}
+			err := ucfg.New().Unpack(&to)
+			return err == nil, fmt.Sprint(err)
+		})
+	}
 	probes["O85"] = func() (bool, string) {
 		return guard(func() (bool, string) {
 			c, _ := ucfg.NewFrom(map[string]interface{}{"b": 1})
@@ -461,6 +468,10 @@ func probeO22() (bool, string) {
 		return err != nil || t.L != "info", fmt.Sprint(err, t)
 	})
 }
+
+type rejecting struct{}
+
+func (rejecting) Validate() error { return fmt.Errorf("rejected") }
 
 type initArr [2]int
 
